@@ -21,7 +21,7 @@ RULE = ('random histories of 80-300 commands over pools Z0..15/Q0..7/F0..7/R0..2
         'through cookie streams, set_prec/set_prec_raw brackets; operands mostly 0..60 limbs, some to 700 and some above 8192 limbs (heap TMP); each '
         'history is run three times (A natural, B every destination shrunk to the smallest legal allocation before every call, C random shrink/'
         'grow) and all replies must be identical; monitors: ASan/UBSan(fatal subset), recording allocator (exact sizes, unknown pointers, leaks), '
-        'libc-bypass detector, well-formedness of every written object, input digests. distinct = (function, size bucket of largest input); '
+        'libc-bypass detector, well-formedness of every written object, input digests; plus an edge stage: every function x K tuples of operands at the representation edges (mpz 0,+-1,B^k-1,B^k,B^k+1, zero low limbs; mpf mantissas filling exactly prec+1 limbs with top bit set/all ones, one limb; bit counts 0,1,63..65, 64*prec+-1; ui 0,1,2^32,2^63,2^64-1) called with grown and with minimal destinations, replies equal. distinct = (function, size bucket of largest input) and (function, edge shape); '
         'evaluations = library calls executed over the three runs')
 ASSUMPTIONS = ['obsolete hidden-global random functions and mpz_array_init are excluded (as the property says)',
                'uninitialised reads are not detected (no MSan)']
@@ -393,10 +393,113 @@ def worker_entry(a):
     w.res['wall'] = time.time() - t0
     return w.res
 
-def specs(*a): return iter(())
+# ---------------------------------------------------------------- edge stage: every function once per edge-operand tuple
+# Random histories reach a given (function, operand shape) pair only by luck (mpf_eq with 0 bits on a full mantissa, F15); this stage
+# puts every generic function on operands at the representation's edges: mpz 0, +-1, B^k-1, B^k, B^k+1, zero low limbs; mpf mantissas
+# of exactly prec+1 limbs (the whole allocation) with the top bit set / all ones / only the top bit / top limb 1, and of one limb;
+# bit counts 0, 1, 63..65 and around 64*prec limbs; ui 0, 1, 2^32, 2^63, 2^64-1.  The call is made with grown and with minimal
+# destinations and the replies must agree; the driver's monitors (ASan, recorder, WF, digests) judge each call.
+EDGE_FNS = [n for n in GENERIC if n not in ('mpz_nextprime', 'mpz_next_prime_candidate')]
+
+def edge_z(r):
+    k = r.randint(1, 5); Bk = 1 << (64 * k)
+    v = r.choice([0, 1, 2, Bk - 1, Bk, Bk + 1, Bk >> 1, (Bk >> 1) - 1, Bk - (1 << 64 * (k - 1)), gen.nat(r, k, 'rand') << (64 * r.randint(1, 3)),
+                  (gen.nat(r, 1) | 1) << 63, gen.nat(r, k, 'ones'), gen.nat(r, k)])
+    return -v if r.random() < 0.4 else v
+
+def edge_f(r, prec):
+    pl = (max(prec, 53) + 127) // 64
+    size = r.choice([pl + 1, pl + 1, pl + 1, pl + 1, pl, pl + 2, 1, 2])
+    bits = 64 * size
+    pat = r.choice(['rand', 'ones', 'top', 'toplimb1', 'lowzero', 'lowones'])
+    if pat == 'rand': m = r.getrandbits(bits) | (1 << (bits - 1))
+    elif pat == 'ones': m = (1 << bits) - 1
+    elif pat == 'top': m = 1 << (bits - 1)
+    elif pat == 'toplimb1': m = (1 << (bits - 64)) | r.getrandbits(bits - 64) if size > 1 else 1
+    elif pat == 'lowzero': m = (r.getrandbits(64) | (1 << 63)) << (bits - 64)
+    else: m = ((1 << 63) << (bits - 64)) | ((1 << (bits - 64)) - 1) if size > 1 else M_
+    e2 = -bits + 64 * r.choice([0, 1, 2, -1, -2, size, size - 1, size + 1, r.randint(-6, 6), r.choice([-1, 1]) * r.randint(50, 80)]) + r.choice([0, 0, 0, 0, 0, 0, 1, 63])
+    if r.random() < 0.04: m = 0
+    return (m * r.choice([1, 1, -1]), e2)
+M_ = (1 << 64) - 1
+
+def edge_specs(rng, tier, wid, nw, env):
+    K = 156 if tier == 'quick' else 1560
+    k = 0
+    for name in EDGE_FNS:
+        for j in range(K):
+            k += 1
+            if k % nw == wid: yield ('edge', name, j, rng.getrandbits(48))
+
+def edge_build(spec, env):
+    _, name, j, sd = spec
+    r = random.Random(sd); ret, sig = api.FNS[name]
+    prec = r.choice(api.PRECS); pl = (max(prec, 53) + 127) // 64
+    BL = [0, 1, 63, 64, 65, 64 * pl - 1, 64 * pl, 64 * pl + 1, 64 * pl + 64, 64 * pl + 65, 64 * pl + 128, r.randint(0, 400), r.randint(0, 64 * pl)]
+    REL = [None, None, 'eq', 'neg', 'lowbit', 'lowlimb']
+    for attempt in range(30):
+        v = api.gen_args(r, name, maxl=4)
+        for i, ch in enumerate(sig):
+            if ch in 'Zz': v[i] = edge_z(r)
+            elif ch in 'Qq':
+                d = abs(edge_z(r)) or 1; n = edge_z(r); v[i] = Fraction(n, d)
+            elif ch in 'Ff': v[i] = edge_f(r, prec)
+            elif ch == 'b': v[i] = BL[j % 13]
+            elif ch == 'u': v[i] = r.choice([0, 1, 2, 1 << 32, 1 << 63, M_, M_ - 1, r.getrandbits(64)])
+            elif ch == 's': v[i] = r.choice([0, 1, -1, -(1 << 63), (1 << 63) - 1, 1 << 32, -(1 << 31)])
+        # related operands: equal, negated, differing in the last bit / last limb (cancellation, comparison loops running to the end)
+        for ty in ('Zz', 'Qq', 'Ff'):
+            pos = [i for i, ch in enumerate(sig) if ch in ty and ch.islower()]
+            rel = REL[(j // 13) % 6]
+            if len(pos) >= 2 and rel:
+                a = v[pos[0]]
+                if ty == 'Ff':
+                    m, e2 = a; b = {'eq': m, 'neg': -m, 'lowbit': m ^ 1, 'lowlimb': m ^ r.getrandbits(64)}[rel]; v[pos[1]] = (b, e2)
+                elif ty == 'Zz': v[pos[1]] = {'eq': a, 'neg': -a, 'lowbit': a ^ 1, 'lowlimb': a ^ r.getrandbits(64)}[rel]
+                else: v[pos[1]] = {'eq': a, 'neg': -a, 'lowbit': a + Fraction(1, a.denominator), 'lowlimb': a}[rel]
+        v = api.fix(r, name, v)
+        if v is None: return None
+        if valid(name, sig, v): break
+    else:
+        return None
+    vars_ = {}; nxt = {'Z': 1, 'Q': 1, 'F': 1}
+    for i, ch in enumerate(sig):
+        if ch in 'ZzQqFfIJK':
+            t = {'I': 'Z', 'J': 'F', 'K': 'Q'}.get(ch, ch.upper()); vars_[i] = '%s%d' % (t, nxt[t]); nxt[t] += 1
+    def setup():
+        cmds = []
+        for i, ch in enumerate(sig):
+            if ch in 'Zz': cmds.append('z %s %s' % (vars_[i], hx(v[i])))
+            elif ch in 'Qq': cmds.append('q %s %s %s' % (vars_[i], hx(v[i].numerator), hx(v[i].denominator)))
+            elif ch in 'Ff': cmds.append(api.fcmd(vars_[i], prec if ch == 'f' or r.random() < 0.6 else r.choice(api.PRECS), v[i]))
+        if 'R' in sig or 'r' in sig: cmds.append('c gmp_randseed_ui R0 #%d' % (sd & 0xffffffff))
+        return cmds
+    toks = []
+    for i, ch in enumerate(sig):
+        if ch in 'ZzQqFfIJK': toks.append(vars_[i])
+        elif ch in 'Rr': toks.append('R0')
+        else: toks.append(api.tok(ch, name, v[i]))
+    call = 'c %s %s' % (name, ' '.join(toks))
+    pre = []
+    for i, ch in enumerate(sig):
+        if ch == 'Z': pre.append((('grow %s 3' % vars_[i]), 'shrink %s' % vars_[i]))
+        elif ch == 'Q': pre += [('grow N%s 3' % vars_[i][1:], 'shrink N%s' % vars_[i][1:]), ('grow D%s 2' % vars_[i][1:], 'shrink D%s' % vars_[i][1:])]
+    st = setup()
+    c1 = st + [a for a, b in pre]; i1 = len(c1)
+    c2 = st + [b for a, b in pre]; i2 = len(c2)
+    cmds = c1 + [call] + c2 + [call]
+    def check(rep, name=name):
+        a = rep[i1]; b = rep[i1 + 1 + i2]
+        if a != b: return [('alloc-dependent-result:%s' % name, 'grown=%s shrunk=%s' % (a[:200], b[:200]))]
+    shape = tuple((min(gen.nlimbs(x), 8) if isinstance(x, int) else (gen.nlimbs(x[0]) - pl if isinstance(x, tuple) else 0)) for x in v if isinstance(x, (int, tuple)))
+    return runner.Case(cmds, check, 2, ('edge', name, shape[:3]))
+
+def specs(rng, tier, wid, nw, env): return edge_specs(rng, tier, wid, nw, env)
 def build(spec, env):
-    sc = spec['script']
-    return runner.Case(sc, lambda rep: [], len(sc))
+    if isinstance(spec, dict):
+        sc = spec['script']
+        return runner.Case(sc, lambda rep: [], len(sc))
+    return edge_build(tuple(spec), env)
 
 def main(argv):
     ap = argparse.ArgumentParser(); ap.add_argument('--tier', default=os.environ.get('VERIF_TIER', 'quick')); ap.add_argument('--replay'); ap.add_argument('--variants')
@@ -416,7 +519,15 @@ def main(argv):
     with multiprocessing.get_context('fork').Pool(nw) as pool:
         results = pool.map(worker_entry, jobs, chunksize=1)
     agg = runner.aggregate([('c04', j[0], j[1], j[2], j[3], j[4]) for j in jobs], results)
-    cov = dict(evaluations=agg['evaluations'], histories=agg['cases'], distinct_nontrivial=len(agg['tags']), rule=RULE, samples=agg['samples'][:8],
+    # edge stage through the standard case pipeline
+    ejobs, eres = runner.run_workers('c04', a.tier, [v for v in variants if v in ('asan', 'asan-tdbg')] or variants[:1])
+    eagg = runner.aggregate(ejobs, eres)
+    nh = agg['cases']
+    for k in ('evaluations', 'cases', 'unrepro'): agg[k] += eagg[k]
+    agg['tags'] |= eagg['tags']; agg['failures'] += eagg['failures']; agg['notes'] += eagg['notes']; agg['harness_errors'] += eagg['harness_errors']
+    for k, n in eagg['ops'].items(): agg['ops'][k] = agg['ops'].get(k, 0) + n
+    agg['cases'] = nh; agg['edge_cases'] = eagg['cases']
+    cov = dict(evaluations=agg['evaluations'], histories=agg['cases'], edge_cases=agg['edge_cases'], distinct_nontrivial=len(agg['tags']), rule=RULE, samples=agg['samples'][:8],
                variants=variants, per_variant=agg['per_variant'], calls_per_function=dict(sorted(agg['ops'].items())), functions_called=len(agg['ops']),
                functions_in_table=len(GENERIC), notes=agg['notes'][:10], unreproduced_driver_deaths=agg['unrepro'], tree=bld.tree_hash())
     inconc = None
